@@ -710,6 +710,8 @@ def parts(ctx):
     A(name="fnames-d3", profile=fnames_profile, depth=3, shards=8, dom={INT: (0, 1)},
       top_ops=lambda o: o.name == "dup")
     A(name="ascii-names-d1", profile=ascii_names_profile, depth=1, shards=8, hr=False)
+    A(name="nary5-d1", profile=P.nary5_profile, depth=1, shards=16, dom={INT: (-1, 0, 2)})
+    A(name="bv33-d1", profile=lambda e: P.widebv_profile(e, 33), depth=1, shards=8, dom=P.widebv_dom(33))
     A(name="names-d2", profile=names_profile, depth=2, shards=8 if q else 32, dom={INT: (0, 1)},
       mid_ops=_not_named("and") if q else None, max_new=1 if q else None)
     if not q:
